@@ -139,6 +139,7 @@ fn run_c13q<D: Dg>(c: &C13Q) -> R {
         let t = BfsPred::new(&d, [g.vlist()[0]].into_iter()).predecessors();
         let a = t.search(h, g.vlist()[0]);
         let b = t.search(g.vlist()[0], h);
+        let _ = outcome(|| t[h]);
         (a, b)
     }).is_some();
     }
@@ -192,6 +193,24 @@ fn run_weighted_entry_points(c: &C13Q) -> R {
             let mut fw = FloydWarshall::new(&d);
             let dm = fw.distances();
             dm[h]
+        });
+        // a column outside the matrix: in the last row the cell lies past the end of the buffer
+        let last = g.order() - 1;
+        for (u, v) in [(0usize, h), (last, h), (last, g.order()), (h, h)] {
+            let _ = outcome(|| {
+                let mut fw = FloydWarshall::new(&d);
+                let dm = fw.distances();
+                dm[(u, v)]
+            });
+            let _ = outcome(|| {
+                let mut dm = graaf::DistanceMatrix::<isize>::new(g.order(), isize::MAX);
+                dm[(u, v)] = 0;
+            });
+        }
+        let _ = outcome(|| {
+            let mut fw = FloydWarshall::new(&d);
+            let dm = fw.distances();
+            dm[0..h.min(g.order() * g.order() + 2)].len()
         });
     }
     Ok(())
